@@ -95,7 +95,7 @@ def check_waits(ctx, rid, cls, cvfield, mutex, pred_fields):
     return ws
 
 
-def notify_follows(f, write_pos, cvfield, pred_fields, cls, require_all=True):
+def notify_follows(f, write_pos, cvfield, pred_fields, cls, require_all=True, la=None, mutex=None):
     """a notify on this.<cvfield> follows write_pos on every path to the exit,
     or is bypassed only through a branch whose condition reads pred_fields only.
     returns (ok, detail)"""
@@ -122,11 +122,16 @@ def notify_follows(f, write_pos, cvfield, pred_fields, cls, require_all=True):
                 other = False
                 work = [cond]
                 seen_decl = set()
+                unlocked_read = None
                 while work:
                     c0 = work.pop()
                     for d in f.descendants(c0):
                         if d["k"] == "MemberExpr" and d["m"].get("is_field"):
                             names.add(d["m"]["name"])
+                            if la is not None and mutex is not None and d["m"]["name"] in pred_fields:
+                                rp = f.pos_of(d)
+                                if rp is None or not la.holds(rp, "this." + mutex, "X"):
+                                    unlocked_read = f.loc(d)
                         if d["k"] == "DeclRefExpr" and d["d"].get("k") == "param":
                             other = True
                         if d["k"] == "DeclRefExpr" and d["d"].get("k") == "local":
@@ -144,5 +149,9 @@ def notify_follows(f, write_pos, cvfield, pred_fields, cls, require_all=True):
                             else:
                                 other = True
                 if names and names <= set(pred_fields) and not other:
+                    if unlocked_read:
+                        return False, "the decision whether to notify re-reads %s at %s after the mutex was released: a " \
+                                      "concurrent change in between makes the arrival that opened the gate skip the notify" \
+                                      % (sorted(names), unlocked_read)
                     return True, "notify guarded by a test of %s only" % sorted(names)
     return False, "a path from the state change to the exit avoids every notify"
